@@ -62,10 +62,39 @@ Definition new_var (d : dom) (st : lst) : nat * lst := (nvars st, (fst st ++ [d]
 Definition push (p : pdesc) (st : lst) : lst := (fst st, snd st ++ [p]).
 Definition set_dom (v : nat) (d : dom) (st : lst) : lst := (supd (fst st) v d, snd st).
 
-(* placeholder bounds of create_result_var (runtime_api:872-874) *)
-Definition aux_lo : Z := Selen.Generated.Consts.aux_placeholder_lo.   (* regenerated from the source *)
-Definition aux_hi : Z := Selen.Generated.Consts.aux_placeholder_hi.
-Definition aux_dom : dom := drange aux_lo aux_hi.
+(* var_bounds / expr_bounds (runtime_api): interval arithmetic on the tree from the CURRENT bounds of
+   its variables.  SparseSet::min/max are the least/greatest element (dlo/dhi; = dmin/dmax on the
+   sorted domains every reachable store has); an empty domain and an out-of-range id read as [0, 0].
+   i32 is modelled as unbounded Z: the clamp of ExprBounds::int to [i32::MIN+1, i32::MAX-1] is the
+   identity on this fragment. *)
+Definition dlo (d : dom) : Z := match d with [] => 0 | x :: r => list_min x r end.
+Definition dhi (d : dom) : Z := match d with [] => 0 | x :: r => list_max x r end.
+Definition mul_bounds (ll lh rl rh : Z) : Z * Z :=
+  let ps := [ll * rh; lh * rl; lh * rh] in (list_min (ll * rl) ps, list_max (ll * rl) ps).
+(* remainder of a truncating division: sign of the dividend (or 0), magnitude at most the dividend's
+   and smaller than the divisor's *)
+Definition mod_bounds (ll lh rl rh : Z) : Z * Z :=
+  let m := Z.max (Z.max (Z.abs rl) (Z.abs rh) - 1) 0 in
+  ((if 0 <=? ll then 0 else Z.max ll (- m)), (if lh <=? 0 then 0 else Z.min lh m)).
+Fixpoint ebounds (s : store) (e : expr) : Z * Z :=
+  match e with
+  | EVar v => (dlo (sget s v), dhi (sget s v))
+  | EVal c => (c, c)
+  | EAdd l r => let (ll, lh) := ebounds s l in let (rl, rh) := ebounds s r in (ll + rl, lh + rh)
+  | ESub l r => let (ll, lh) := ebounds s l in let (rl, rh) := ebounds s r in (ll - rh, lh - rl)
+  | EMul l r => let (ll, lh) := ebounds s l in let (rl, rh) := ebounds s r in mul_bounds ll lh rl rh
+  | EMod l r => let (ll, lh) := ebounds s l in let (rl, rh) := ebounds s r in mod_bounds ll lh rl rh
+  end.
+(* domain of the auxiliary variable that holds e: the computed range.  A range of more than
+   MAX_SPARSE_SET_DOMAIN_SIZE values is NOT materialised: the variable is represented by the empty
+   domain.  ModelValidator reports InvalidDomain for it either way (validate below: an empty and a
+   too-large domain give the same verdict, and validate_variable_domains runs before every other
+   check), nothing reads an auxiliary variable's domain before validation, and no theorem speaks
+   about a lowered model with an empty domain (doms_nonempty). *)
+Definition range_too_large (lo hi : Z) : bool := Selen.Generated.Consts.max_sparse_set_domain_size <? hi - lo + 1.
+Definition aux_dom (s : store) (e : expr) : dom :=
+  let b := ebounds s e in
+  if range_too_large (fst b) (snd b) then [] else drange (fst b) (snd b).
 
 (* SparseSet::remove_all_but *)
 Definition only (c : Z) (d : dom) : dom := if memZ c d then [c] else [].
@@ -89,7 +118,7 @@ Definition is_var (e : expr) : bool := match e with EVar _ => true | _ => false 
 Definition create_result_var (e : expr) (st : lst) : nat * lst :=
   match e with
   | EVar v => (v, st)
-  | _ => new_var aux_dom st
+  | _ => new_var (aux_dom (fst st) e) st
   end.
 
 (* post_expression_constraint: the four binary arms share this body (rec = the function itself) *)
@@ -218,14 +247,13 @@ Record mstate := mkms {
 
 Definition ms0 : mstate := mkms ([], []) [] [] false.
 
-(* apply_var_eq_bounds (also the body of apply_immediate_var_eq_bounds); None = min()/max() of an
-   empty domain (debug_assert!(!self.is_empty()), sparse_set.rs:147,152; the harness and the test
-   suite build with debug assertions) *)
+(* apply_var_eq_bounds (also the body of apply_immediate_var_eq_bounds); an empty domain is left
+   alone (is_empty_int guard): it stays empty and the validator reports it.  Never None. *)
 Definition var_eq_bounds (v1 v2 : nat) (st : lst) : option lst :=
   if ((v1 <? nvars st) && (v2 <? nvars st))%nat then
     let d1 := sget (fst st) v1 in
     let d2 := sget (fst st) v2 in
-    if dempty d1 || dempty d2 then None
+    if dempty d1 || dempty d2 then Some st
     else
       let lo := if dmin d2 <? dmin d1 then dmin d1 else dmin d2 in
       let hi := if dmax d1 <? dmax d2 then dmax d1 else dmax d2 in
@@ -343,10 +371,13 @@ Definition lower (m : mstate) : lowered :=
       LOk (fst st) (snd st)
     end.
 
-(* ModelValidator::validate, the branches this vocabulary can reach: an empty integer domain
-   (validate_variable_domains runs first), then a Modulo whose second registered variable (the
-   divisor) has 0 in its domain (validate_constraint_parameters).  Add/Mul always have 3 operands
-   here; no alldiff. *)
+(* ModelValidator::validate, the branches this vocabulary can reach: an empty integer domain or one
+   with more than MAX_SPARSE_SET_DOMAIN_SIZE values (validate_variable_domains runs first; the code
+   tests the universe size max - min + 1 fixed at creation, which is the size of an auxiliary
+   variable's domain: nothing removes values from it before validation), then a Modulo whose second
+   registered variable (the divisor) has 0 in its domain (validate_constraint_parameters).  Add/Mul
+   always have 3 operands here; no alldiff. *)
+Definition dom_too_large (d : dom) : bool := Selen.Generated.Consts.max_sparse_set_domain_size <? Z.of_nat (length d).
 Definition mod_divisor_has_zero (s : store) (p : pdesc) : bool :=
   match p with
   | PMod x y r =>
@@ -356,8 +387,13 @@ Definition mod_divisor_has_zero (s : store) (p : pdesc) : bool :=
     end
   | _ => false
   end.
+(* the in-range condition of the denotation theorems: no variable of the lowered model has an
+   empty domain; in particular no auxiliary variable's computed range exceeded the size limit
+   (aux_dom).  Implied by validate = None. *)
+Definition doms_nonempty (s : store) : bool := forallb (fun d => negb (dempty d)) s.
 Definition validate (s : store) (ps : list pdesc) : option verr :=
   if existsb dempty s then Some EInvalidDomain
+  else if existsb dom_too_large s then Some EInvalidDomain
   else if existsb (mod_divisor_has_zero s) ps then Some EInvalidConstraint
   else None.
 
@@ -381,28 +417,6 @@ Fixpoint has_bin_ne (c : cons) : bool :=
   end.
 Definition kf_nested_ne (c : cons) : bool := has_bin_ne (to_linear (fold_cons c)).
 
-(* D5: every compound sub-expression (and every constant inside one) that the Binary arm lowers
-   through get_expr_var / post_expression_constraint lives in an auxiliary variable with the
-   placeholder domain [aux_lo, aux_hi].  `within e a`: all those values are inside the placeholder
-   bounds at assignment a (a constant compared directly, get_expr_var's Val arm, is exempt). *)
-Definition in_aux (x : Z) : bool := (aux_lo <=? x) && (x <=? aux_hi).
-Fixpoint win_sub (e : expr) (a : asg) : bool :=     (* e is stored in a placeholder variable unless it is a Var *)
-  match e with
-  | EVar _ => true
-  | EVal c => in_aux c
-  | EAdd l r | ESub l r | EMul l r | EMod l r =>
-    win_sub l a && win_sub r a &&
-    match eval_expr e a with Some x => in_aux x | None => true end
-  end.
-Definition win_top (e : expr) (a : asg) : bool :=
-  match e with EVar _ | EVal _ => true | _ => win_sub e a end.
-Fixpoint win_cons (c : cons) (a : asg) : bool :=
-  match c with
-  | CBin l _ r => win_top l a && win_top r a
-  | CAnd p q | COr p q => win_cons p a && win_cons q a
-  | CNot p => win_cons p a
-  | CLinInt _ _ _ _ => true
-  end.
 (* all assignments of a store, as value lists *)
 Fixpoint all_asgs (s : store) : list (list Z) :=
   match s with
@@ -410,13 +424,9 @@ Fixpoint all_asgs (s : store) : list (list Z) :=
   | d :: r => flat_map (fun x => map (fun t => x :: t) (all_asgs r)) d
   end.
 Definition asg_of_list (l : list Z) : asg := fun v => nth v l 0.
-(* class: some assignment inside the declared domains (store s, VarIds = ordinals) drives an
-   auxiliary value out of the placeholder bounds *)
-Definition kf_aux_bounds (c : cons) (s : store) : bool :=
-  negb (forallb (fun l => win_cons (to_linear (fold_cons c)) (asg_of_list l)) (all_asgs s)).
-
-(* what the lowering of the stored AST `c` enforces: Or -> And, Not -> identity, values confined to
-   the placeholder bounds.  With noop_ne = false this is the meaning of the propagator DESCRIPTIONS
+(* what the lowering of the stored AST `c` enforces: Or -> And, Not -> identity (the auxiliary
+   variables' computed bounds contain every value their expression takes on the current domains:
+   ebounds_sound).  With noop_ne = false this is the meaning of the propagator DESCRIPTIONS
    (`psat`, theorem lower_denotes_exact); with noop_ne = true additionally a Binary `!=` enforces
    nothing, which is what the NotEquals propagator's pruning does (used by the tie to predict
    enumerate's answer) *)
@@ -425,7 +435,7 @@ Fixpoint impl_gen (noop_ne : bool) (c : cons) (a : asg) : bool :=
   match c with
   | CBin l op r =>
     match eval_expr l a, eval_expr r a with
-    | Some x, Some y => (if noop_ne then cmp_impl op x y else cmp_sem op x y) && win_top l a && win_top r a
+    | Some x, Some y => if noop_ne then cmp_impl op x y else cmp_sem op x y
     | _, _ => false
     end
   | CAnd p q => impl_gen noop_ne p a && impl_gen noop_ne q a
